@@ -38,6 +38,7 @@ impl Function {
 pub struct Solver { pub model: Ghost<Model> }
 impl Solver {
     pub open spec fn unsat(&self) -> bool { forall|a: Asg| !(#[trigger] (self.model@)(a)) }
+    pub open spec fn wf(&self) -> bool { true }     // root values are not tracked at this level
     // statement of C01 / C02 / C11 at the API (proved in unit api_solver against the engine contract)
     #[verifier::external_body]
     pub fn satisfy<B: Brancher, T: TerminationCondition>(&mut self, brancher: &mut B, termination: &mut T) -> (r: SatisfactionResult)
@@ -54,32 +55,34 @@ pub enum PseudoBooleanEncoding { GeneralizedTotalizer, CardinalityNetwork }
 #[derive(Clone, Copy)]
 pub enum EncodingError { RootPropagationConflict, CannotStrengthen, TriviallyUnsatisfiable }
 
-// the upper-bound encoder, by contract (ASSUMED: the encodings themselves are not decided)
-pub struct PseudoBooleanConstraintEncoder {
-    pub base: Ghost<Model>,          // the model when the encoder was created
-    pub cost: Ghost<spec_fn(Asg) -> int>,
-    pub current: Ghost<Model>,       // the solver's model as left by the last call
-}
+//@@SPEC contracts/pbe_defs.rs@@
+// the upper-bound encoder, by contract: the text of spec/contracts/pbe_constrain.sig is PROVED for the real wrapper in
+// unit pb_encoder (there `inv`, `cost`, `slack` are defined; here they are opaque)
+pub struct PseudoBooleanConstraintEncoder { pub x: u8 }
 impl PseudoBooleanConstraintEncoder {
+    pub uninterp spec fn cost(&self, a: Asg) -> int;
+    pub open spec fn cost_fn(&self) -> spec_fn(Asg) -> int { |a: Asg| self.cost(a) }
+    pub uninterp spec fn inv(&self, m: Model) -> bool;
+    pub uninterp spec fn slack(&self) -> nat;
+    pub uninterp spec fn is_new(&self) -> bool;
+    pub uninterp spec fn k_prev(&self) -> int;
+    // proved in unit pb_encoder (lemma_inv_bounds)
+    #[verifier::external_body]
+    pub proof fn lemma_inv_bounds(&self, m: Model, a: Asg)
+        requires self.inv(m), !self.is_new(), m(a)
+        ensures self.cost(a) <= self.k_prev()
+    { }
+    // ASSUMED (from_function / new are a struct literal plus an iterator adapter): a fresh encoder for the objective
     #[verifier::external_body]
     pub fn from_function(function: &Function, solver: &mut Solver, encoding_algorithm: PseudoBooleanEncoding) -> (r: Self)
         ensures final(solver).model == old(solver).model,
-                r.base == old(solver).model, r.current == old(solver).model,
-                forall|a: Asg| #[trigger] (r.cost@)(a) == function.cost(a),
+                r.is_new(), r.inv(old(solver).model@),
+                forall|a: Asg| #[trigger] r.cost(a) == function.cost(a),
     { unimplemented!() }
 
     #[verifier::external_body]
     pub fn constrain_at_most_k(&mut self, k: u64, solver: &mut Solver) -> (r: Result<(), EncodingError>)
-        requires old(solver).model == old(self).current,     // nothing else touched the model in between
-        ensures
-            final(self).base == old(self).base, final(self).cost == old(self).cost, final(self).current == final(solver).model,
-            // sound: whatever the constrained model admits is a base solution of cost <= k
-            r is Ok ==> forall|a: Asg| #![trigger (final(solver).model@)(a)] (final(solver).model@)(a) ==> (old(self).base@)(a) && (old(self).cost@)(a) <= k,
-            // complete up to auxiliary variables: every base solution of cost <= k has a same-cost counterpart
-            r is Ok ==> forall|a: Asg| #![trigger (old(self).base@)(a)] (old(self).base@)(a) && (old(self).cost@)(a) <= k
-                ==> exists|a2: Asg| #![trigger (final(solver).model@)(a2)] (final(solver).model@)(a2) && (old(self).cost@)(a2) == (old(self).cost@)(a),
-            // an error means no base solution is that cheap
-            r is Err ==> forall|a: Asg| #![trigger (old(self).base@)(a)] (old(self).base@)(a) ==> (old(self).cost@)(a) > k,
+//@@SPEC contracts/pbe_constrain.sig@@
     { unimplemented!() }
 }
 
